@@ -76,7 +76,7 @@ func c02prop(r *simkit.Run) *rrWorld {
 	removed := map[string]bool{}
 
 	startOp := func() *rrOp {
-		kinds := []string{"upsert", "upsert", "upsert-w", "upsert-w", "upsert-bad", "upsert-partly-bad", "remove", "remove", "next", "next", "serve", "serve", "serve-mut", "servers", "weight"}
+		kinds := []string{"upsert", "upsert", "upsert-w", "upsert-w", "upsert-bad", "upsert-partly-bad", "upsert-meter-fails", "remove", "remove", "next", "next", "serve", "serve", "serve-mut", "servers", "weight"}
 		if sticky {
 			kinds = append(kinds, "serve-sticky", "serve-sticky", "serve-sticky-mut")
 		}
@@ -96,6 +96,16 @@ func c02prop(r *simkit.Run) *rrWorld {
 				wt = 1 // in fine mode "is it new?" depends on the interleaving; keep the op unambiguous
 			}
 			return w.opUpsert(u, true, wt)
+		case "upsert-meter-fails":
+			// through the rebalancer, adding a new server whose meter cannot be built must fail and leave no trace
+			u := mustURL(pick())
+			if fine || !viaRB || w.model.find(keyOf(u)) >= 0 {
+				return w.opUpsert(u, false, 0)
+			}
+			w.failMeter = true
+			op := w.opUpsert(u, true, -99) // marked as "must fail, must change nothing" (see applyCoarse)
+			op.hasW, op.w = true, -99
+			return op
 		case "upsert-partly-bad":
 			if fine {
 				return w.opUpsert(mustURL(pick()), true, -1) // the partial effect is only reconciled in coarse mode
